@@ -53,12 +53,18 @@ PickD1 == /\ Family = "d1" /\ done = "no" /\ (\E t \in NumD1_(0) \cup LogD1_(0) 
 \* rule 0 * e -> 0 must not erase a zero or variable denominator hidden anywhere inside e)
 DivBases == {B("div", a, b) : a \in NumLeaves, b \in NumLeaves}
 ZeroWrap(t) == {B("mul", Num(0, 1), t), B("mul", t, Num(0, 1)), B("mul", Num(0, -1), t), B("mul", B("sub", V("x"), V("x")), t)}
+\* family "negsum": the spellings of a negated sum (unary minus, subtraction from a leaf, scale -1, division by -1)
+SumBases == {B(o, a, b) : o \in {"add", "sub"}, a \in NumLeaves, b \in NumLeaves}
+NegWrap(t) == {U("neg", t), B("mul", Num(-1, 1), t), B("mul", t, Num(-2, 1)), B("div", t, Num(-1, 1)), U("neg", U("neg", t))}
+              \cup {B("sub", l, t) : l \in {V("y"), Num(0, 1), Num(2, 1)}}
 PickBase == /\ Family # "d1" /\ done = "no"
-            /\ \E t \in (CASE Family = "d2num" -> NumD1_(0) \ NumLeaves [] Family = "zero" -> DivBases [] OTHER -> LogD1_(0) \ LogLeaves) : base' = t
+            /\ \E t \in (CASE Family = "d2num" -> NumD1_(0) \ NumLeaves [] Family = "zero" -> DivBases [] Family = "negsum" -> SumBases
+                           [] OTHER -> LogD1_(0) \ LogLeaves) : base' = t
             /\ done' = "base" /\ UNCHANGED tree
 Wrap == /\ done = "base"
         /\ \E t \in (CASE Family = "d2num" -> WrapNum(base)
                        [] Family = "zero" -> UNION {ZeroWrap(w) : w \in WrapNum(base)}
+                       [] Family = "negsum" -> NegWrap(base)
                        [] OTHER -> WrapLog(base) \cup WrapLogAsNum(base)) : tree' = t
         /\ done' = "yes" /\ UNCHANGED base
 Next == PickD1 \/ PickBase \/ Wrap
